@@ -7,6 +7,8 @@ import (
 	"math/big"
 
 	"github.com/Oneledger/protocol/action"
+	"github.com/Oneledger/protocol/consensus"
+	"github.com/Oneledger/protocol/data/balance"
 	"github.com/Oneledger/protocol/data/keys"
 	"github.com/btcsuite/btcd/btcec"
 
@@ -23,7 +25,11 @@ import (
 // ED25519 or SECP256K1 key, the uncompressed point for a BTCEC key; 8 = a zero byte appended);
 // 9 and 10 spell the first signature differently (9 = a zero byte appended; 10 = the twin
 // signature anybody can compute from a valid one: (r, N-s) for the two ECDSA algorithms, in the
-// encoding of the original, and (R, s+L) for ED25519).
+// encoding of the original, and (R, s+L) for ED25519); 11 and 12 touch the last byte of the first
+// signature (11 = dropped, 12 = changed: where a signature carries a byte the verification does not
+// read — a recovery id — every value of it is another spelling); 13 names the other algorithm
+// that accepts the same key bytes: a SECP256K1 entry as BTCEC with the DER encoding of the same
+// (r, s), a BTCEC entry as SECP256K1 with r || s.
 func Reencode(tx []byte, how int) []byte {
 	if how == 3 {
 		return append(append([]byte{}, tx...), ' ', '\n')
@@ -60,6 +66,43 @@ func Reencode(tx []byte, how int) []byte {
 			st.Signatures[0].Signer = keys.PublicKey{KeyType: k.KeyType, Data: d}
 		case 9:
 			st.Signatures[0].Signed = append(append([]byte{}, st.Signatures[0].Signed...), 0)
+		case 11:
+			if n := len(st.Signatures[0].Signed); n > 1 {
+				st.Signatures[0].Signed = append([]byte{}, st.Signatures[0].Signed[:n-1]...)
+			} else {
+				return nil
+			}
+		case 12:
+			if n := len(st.Signatures[0].Signed); n > 0 {
+				d := append([]byte{}, st.Signatures[0].Signed...)
+				d[n-1] ^= 1
+				st.Signatures[0].Signed = d
+			} else {
+				return nil
+			}
+		case 13:
+			k := st.Signatures[0].Signer
+			sig := st.Signatures[0].Signed
+			switch k.KeyType {
+			case keys.SECP256K1:
+				if len(sig) != 64 {
+					return nil
+				}
+				ds := btcec.Signature{R: new(big.Int).SetBytes(sig[:32]), S: new(big.Int).SetBytes(sig[32:])}
+				st.Signatures[0] = action.Signature{Signer: keys.PublicKey{KeyType: keys.BTCECSECP, Data: k.Data}, Signed: ds.Serialize()}
+			case keys.BTCECSECP:
+				ds, err := btcec.ParseDERSignature(sig, btcec.S256())
+				if err != nil {
+					return nil
+				}
+				rs := make([]byte, 64)
+				rb, sb := ds.R.Bytes(), ds.S.Bytes()
+				copy(rs[32-len(rb):32], rb)
+				copy(rs[64-len(sb):], sb)
+				st.Signatures[0] = action.Signature{Signer: keys.PublicKey{KeyType: keys.SECP256K1, Data: k.Data}, Signed: rs}
+			default:
+				return nil
+			}
 		case 10:
 			alt := twinSignature(st.Signatures[0].Signer.KeyType, st.Signatures[0].Signed)
 			if alt == nil {
@@ -94,7 +137,7 @@ func Reencode(tx []byte, how int) []byte {
 // (byte-identical, or the same signed content re-encoded). The property holds iff the
 // resubmission is rejected by CheckTx and A's results and application hash stay equal to B's.
 func RunReplay(seed uint64, histories, blocks, maxTxs int) (*Result, error) {
-	res := NewResult("replay", seed, "case = one generated block history on twin replicas; A's blocks additionally carry resubmissions (byte-identical, or re-encoded: indentation, key order, unknown field, trailing whitespace, and altered unsigned envelope parts: duplicated / empty / stranger's extra signature entry, first signer key re-spelled: amino-prefixed / uncompressed point / trailing zero byte, first signature re-spelled: trailing zero byte / the twin signature (r, N-s) resp. (R, s+L); every second history has SECP256K1 and BTCEC signers besides ED25519) of transactions that succeeded earlier, each first offered to CheckTx; monitor: CheckTx code != 0 and A's application hash / other results equal B's; non-trivial = at least one resubmission of a successful state-changing tx delivered at a later height; distinct = SHA-256 of the lines")
+	res := NewResult("replay", seed, "case = one generated block history on twin replicas; A's blocks additionally carry resubmissions (byte-identical, or re-encoded: indentation, key order, unknown field, trailing whitespace, and altered unsigned envelope parts: duplicated / empty / stranger's extra signature entry, first signer key re-spelled: amino-prefixed / uncompressed point / trailing zero byte, first signature re-spelled: trailing zero byte / the twin signature (r, N-s) resp. (R, s+L) / last byte dropped / last byte changed, first signature entry under the other algorithm that takes the same key bytes (SECP256K1 <-> BTCEC); every second history has SECP256K1, BTCEC and ETHSECP signers besides ED25519) of transactions that succeeded earlier, each first offered to CheckTx; monitor: CheckTx code != 0 and A's application hash / other results equal B's; non-trivial = at least one resubmission of a successful state-changing tx delivered at a later height; distinct = SHA-256 of the lines")
 	root := rng.New(seed*77 + 3)
 	for c := 0; c < histories; c++ {
 		r := root.Fork()
@@ -103,6 +146,9 @@ func RunReplay(seed uint64, histories, blocks, maxTxs int) (*Result, error) {
 		w := NewWorld(p)
 		if c%2 == 1 {
 			mixAccountAlgorithms(w) // SECP256K1 and BTCEC signers too
+			if c%4 == 3 {
+				mixEthsecpAccount(w) // account 3 with an ETHSECP key instead (its native transactions verify only if the key handler hashes the message)
+			}
 		}
 		A, err := NewReplica(w, Identity{Name: "A", Val: w.Vals[0]})
 		if err != nil {
@@ -134,15 +180,16 @@ func RunReplay(seed uint64, histories, blocks, maxTxs int) (*Result, error) {
 				txs = append(txs, t.Bytes)
 			}
 			bo := genBlockOpts(r, p.NVals)
-			var extra []byte
+			var extra, o0 []byte
 			extraKind, how := "", -1
 			if len(succeeded) > 0 && r.Intn(3) == 0 {
 				o := succeeded[r.Intn(len(succeeded))]
 				extraKind = o.kind
+				o0 = o.b
 				if r.Intn(3) == 0 {
 					extra = o.b
 				} else {
-					how = r.Intn(11)
+					how = r.Intn(14)
 					extra = Reencode(o.b, how)
 					if extra == nil {
 						how = 3
@@ -158,6 +205,9 @@ func RunReplay(seed uint64, histories, blocks, maxTxs int) (*Result, error) {
 				cr := A.CheckTx(extra)
 				hl.Add("  resubmit %s reencode=%d checktx=%d %x", extraKind, how, cr.Code, extra)
 				res.Counters[fmt.Sprintf("resubmit_reencode_%d", how)]++
+				if st, ok := parseSigned(o0); ok && len(st.Signatures) > 0 {
+					res.Counters["resubmit_first_signer_"+algNames[st.Signatures[0].Signer.KeyType]]++
+				}
 				if cr.Code == 0 {
 					if how < 0 {
 						res.Hit("identical-replay-admitted", c, fmt.Sprintf("CheckTx accepted a byte-identical resubmission of %s at height %d", extraKind, b.Height), hl.Lines)
@@ -199,6 +249,20 @@ func RunReplay(seed uint64, histories, blocks, maxTxs int) (*Result, error) {
 		TruncateAppLog()
 	}
 	return res, nil
+}
+
+// mixEthsecpAccount replaces account 3 by one with an ETHSECP key that signs Keccak-256 of the
+// message (go-ethereum signs 32-byte digests only).
+func mixEthsecpAccount(w *World) {
+	if len(w.Accts) <= 3 {
+		return
+	}
+	a := newSigKey(w.P.Seed, "acct3", keys.ETHSECP).acct("acct3-ethsecp", false)
+	w.Accts[3] = a
+	w.State.Balances = append(w.State.Balances,
+		consensus.BalanceState{Address: a.Addr, Currency: "OLT", Amount: oltUnits(w.P.AcctFunds)},
+		consensus.BalanceState{Address: a.Addr, Currency: "VT", Amount: *balance.NewAmountFromInt(1000)})
+	rebuildGenesis(w)
 }
 
 // twinSignature computes, without any key, the second signature that the bare verification
